@@ -16,6 +16,12 @@ import TextxVerif.Gen.DotExport
 Everything is a fold over the input with an explicit state, so the behaviour on a
 concatenation is the composition of the behaviours on the parts.
 -/
+/-- `cl!"abc"` is the character list `['a', 'b', 'c']` (expanded at elaboration time, so no
+`String.toList` has to be unfolded in proofs) -/
+macro:max "cl!" s:str : term => do
+  let elems ← s.getString.toList.mapM fun c => `($(Lean.Syntax.mkCharLit c))
+  `([$(elems.toArray),*])
+
 namespace Dot
 
 abbrev Str := List Char
@@ -41,11 +47,11 @@ def dotRepr (s : Str) : Str :=
 
 /-- `html.escape(s)` (quote=True) of the standard library: `&` first, then `< > " '` -/
 def htmlEscChar (c : Char) : Str :=
-  if c = '&' then "&amp;".toList
-  else if c = '<' then "&lt;".toList
-  else if c = '>' then "&gt;".toList
-  else if c = '"' then "&quot;".toList
-  else if c = '\'' then "&#x27;".toList
+  if c = '&' then cl!"&amp;"
+  else if c = '<' then cl!"&lt;"
+  else if c = '>' then cl!"&gt;"
+  else if c = '"' then cl!"&quot;"
+  else if c = '\'' then cl!"&#x27;"
   else [c]
 
 def htmlEscape (s : Str) : Str := s.flatMap htmlEscChar
@@ -161,8 +167,8 @@ def lower (s : Str) : Str := s.map Char.toLower
 /-- DOT keywords are case-insensitive -/
 def isKw (s : Str) : Bool :=
   let l := lower s
-  l = "node".toList || l = "edge".toList || l = "graph".toList || l = "digraph".toList
-    || l = "subgraph".toList || l = "strict".toList
+  l = cl!"node" || l = cl!"edge" || l = cl!"graph" || l = cl!"digraph"
+    || l = cl!"subgraph" || l = cl!"strict"
 
 /-- a token usable as an `ID` (names, attribute keys and values) -/
 def isIdTok : Tok → Bool
@@ -230,8 +236,8 @@ def stmtTok (s : PState) (semi : Bool) (t : Tok) : Option PState :=
   | .lbrace => some { depth := s.depth + 1, mode := .stmt, out := .sub none :: s.out }
   | .id w =>
     let l := lower w
-    if l = "subgraph".toList then some { s with mode := .sub0 }
-    else if l = "node".toList || l = "edge".toList || l = "graph".toList then some { s with mode := .kw l }
+    if l = cl!"subgraph" then some { s with mode := .sub0 }
+    else if l = cl!"node" || l = cl!"edge" || l = cl!"graph" then some { s with mode := .kw l }
     else if isKw w then none
     else some { s with mode := .afterId t }
   | .num _ | .qstr _ | .html _ => some { s with mode := .afterId t }
@@ -239,7 +245,7 @@ def stmtTok (s : PState) (semi : Bool) (t : Tok) : Option PState :=
 
 def pstep (s : PState) (t : Tok) : Option PState :=
   match s.mode with
-  | .g0 => if t = .id "digraph".toList then some { s with mode := .g1 } else none
+  | .g0 => if t = .id cl!"digraph" then some { s with mode := .g1 } else none
   | .g1 =>
     if t = .lbrace then some { s with depth := 1, mode := .stmt }
     else if isIdTok t then some { s with mode := .g2 } else none
@@ -374,18 +380,34 @@ def recOk (s : Str) : Bool :=
 def isSpecial (c : Char) : Bool :=
   c = '"' || c = '{' || c = '}' || c = '|' || c = '<' || c = '>'
 
+def isQuote (c : Char) : Bool := c = '"'
+
 /-- scan a fragment: `esc` = the previous character was an unescaped backslash;
-`none` when an unescaped special character is met -/
-def scan : Bool → Str → Option Bool
+`none` when an unescaped `bad` character is met -/
+def scan (bad : Char → Bool) : Bool → Str → Option Bool
   | e, [] => some e
-  | true, _ :: cs => scan false cs
+  | true, _ :: cs => scan bad false cs
   | false, c :: cs =>
-    if c = '\\' then scan true cs else if isSpecial c then none else scan false cs
+    if c = '\\' then scan bad true cs else if bad c then none else scan bad false cs
 
 /-- a fragment that can be spliced into a quoted record label: no unescaped special
 character and no dangling backslash at its end -/
-def Safe (s : Str) : Prop := scan false s = some false
+def Safe (s : Str) : Prop := scan isSpecial false s = some false
+
+/-- a fragment that can be spliced into a quoted string -/
+def QSafe (s : Str) : Prop := scan isQuote false s = some false
 
 instance (s : Str) : Decidable (Safe s) := inferInstanceAs (Decidable (_ = _))
+instance (s : Str) : Decidable (QSafe s) := inferInstanceAs (Decidable (_ = _))
+
+/-- angle-bracket depth inside an HTML string -/
+def angle : Nat → Str → Option Nat
+  | d, [] => some d
+  | d, c :: cs =>
+    if c = '<' then angle (d + 1) cs
+    else if c = '>' then (match d with | 0 => none | d' + 1 => angle d' cs)
+    else angle d cs
+
+def NoAngle (s : Str) : Prop := ∀ c ∈ s, c ≠ '<' ∧ c ≠ '>'
 
 end Dot
